@@ -8,9 +8,14 @@
    exhaustion); the analysis pipeline and the lints never panic; and the only place where the
    pipeline can fail to terminate is one of the two dataflow fixed-point loops.  NOT proved, and
    false of the code today (known findings F-C06-avail-hang, F-C06-live-hang): that those two loops
-   terminate. *)
+   terminate.  Proved for two classes without back edges (end of this file; Proofs/ForwardProofs.v,
+   Proofs/ForwardLiveProofs.v): on forward graphs the value analysis, and on forward graphs without call
+   sites the liveness analysis, return within a number of sweeps linear in the size of the graph - NOT
+   within two, which is false of both loops. *)
 From RV.Model Require Import Base Lexer Isa Parser Reader Cfg Avail Live Lints.
-From RV.Proofs Require Import TotalProofs FixProofs.
+From RV.Spec Require Import FixSpec ForwardSpec.
+From RV.Proofs Require Import TotalProofs FixProofs ForwardProofs ForwardLiveProofs.
+From Coq Require Import Lia.
 
 Definition C06_lex_statement : Prop :=
   forall chk file src, exists items, lex_all chk file src = Ok items.
@@ -97,3 +102,164 @@ Example C06_stable_example :
   avail_loop 1 [C06_nd (PProgramEntry (Some 0%N) raw_default) [] []] [] = OutOfFuel /\
   (exists g', avail_loop 2 [C06_nd (PProgramEntry (Some 0%N) raw_default) [] []] [] = Ok g').
 Proof. vm_compute. repeat split; try reflexivity. eexists; reflexivity. Qed.
+
+(* ---------------------------------------------------------------------------------------------------
+   FORWARD graphs (Spec/ForwardSpec.v): every predecessor of a node has a smaller index - straight-line
+   code with forward branches and joins, no back edge.  Whatever facts the nodes hold at the start.
+
+   "Two sweeps suffice on a forward graph" is FALSE of the model: the transfer of a LOAD reads the node's
+   own OLD memory outs (`rule_pull_value_from_csr_memory n r2 (mout c)` in `avail_transfer`), i.e. what the
+   PREVIOUS sweep stored there, so the value a load pulls out of memory addressed through a csr arrives one
+   sweep late, and a chain of k store/load pairs through such memory needs k + 2 sweeps (witness below: the
+   straight-line program `li a0, 5; csrr t0, mscratch; sw a0, 0(t0); lw t1, 0(t0)` with empty facts needs
+   three).  What holds (Proofs/ForwardProofs.v): the loop returns within (number of loads) + 2 sweeps; two
+   sweeps if the graph has no load; hence `avail_pass`, whose fuel is 40 * length + 64, always returns on a
+   forward graph and (C12, avail_fix_full) its result satisfies the equations. *)
+Definition C06_forward_two_sweeps_false_statement : Prop :=
+  ~ (forall fuel g, forward g -> exists g', avail_loop (S (S fuel)) g [] = Ok g').
+Theorem C06_forward_two_sweeps_false : C06_forward_two_sweeps_false_statement.
+Proof. exact forward_two_sweeps_false. Qed.
+Check C06_forward_two_sweeps_false : C06_forward_two_sweeps_false_statement.
+Print Assumptions C06_forward_two_sweeps_false.
+
+(* count_pulls g = the number of nodes with `reads_from_memory` (the loads) *)
+Definition C06_forward_statement : Prop :=
+  forall fuel g, forward g -> exists g', avail_loop (S (S (count_pulls g)) + fuel) g [] = Ok g'.
+Theorem C06_forward_sweeps : C06_forward_statement.
+Proof. exact forward_sweeps. Qed.
+Check C06_forward_sweeps : C06_forward_statement.
+Print Assumptions C06_forward_sweeps.
+
+(* the statement that was asked for, under the hypothesis it needs: no node is a load *)
+Definition C06_forward_two_sweeps_statement : Prop :=
+  forall fuel g, forward g -> (forall i c, nth_opt g i = Some c -> reads_from_memory (cn c) = None) ->
+    exists g', avail_loop (S (S fuel)) g [] = Ok g'.
+Theorem C06_forward_two_sweeps : C06_forward_two_sweeps_statement.
+Proof. exact forward_two_sweeps_noload. Qed.
+Check C06_forward_two_sweeps : C06_forward_two_sweeps_statement.
+Print Assumptions C06_forward_two_sweeps.
+
+(* no premise about termination or fuel: on a forward graph the pass returns a solution of the equations *)
+Definition C06_forward_pass_statement : Prop :=
+  forall g, forward (gnodes g) -> exists g', avail_pass g = Ok g' /\ AvailEqns g'.
+Theorem C06_forward_pass_returns : C06_forward_pass_statement.
+Proof. exact forward_avail_pass_eqns. Qed.
+Check C06_forward_pass_returns : C06_forward_pass_statement.
+Print Assumptions C06_forward_pass_returns.
+
+(* non-vacuity.  C06_fw: C06_g without the back edge, with a branch and a join, and with stale facts in every
+   node: 0: ProgramEntry, 1: `li t0, 5`, 2: `beq a0, x0, L` (to 3 and 4), 3: `addi t1, t0, 1`, 4 (the join of
+   2 and 3): `addi t2, t0, 2`.  It is forward and has no load; the pass returns; at the join t0 = 5 and
+   t2 = 7 are known, t1 = 6 (known on one path only) and the stale t0 = 99 are not; one sweep is not enough. *)
+Definition C06_stale (n : pnode) (nx pv : list nat) : cnode :=
+  mkcn n [] true nx pv [] [(5%N, AConst 99); (6%N, AConst 3)] [(5%N, AConst 99)] [(MStack 0, AConst 4)]
+       [(MStack 0, AConst 4)] 0%N 0%N 0%N.
+Definition C06_fw : list cnode :=
+  [ C06_stale (PProgramEntry (Some 0%N) raw_default) [1%nat] [];
+    C06_stale (PIArith (C06_w IAddi) (C06_w 5%N) (C06_w 0%N) (C06_w 5%Z) raw_default) [2%nat] [0%nat];
+    C06_stale (PBranch (C06_w IBeq) (C06_w 10%N) (C06_w 0%N) (C06_w []) raw_default) [3%nat; 4%nat] [1%nat];
+    C06_stale (PIArith (C06_w IAddi) (C06_w 6%N) (C06_w 5%N) (C06_w 1%Z) raw_default) [4%nat] [2%nat];
+    C06_stale (PIArith (C06_w IAddi) (C06_w 7%N) (C06_w 5%N) (C06_w 2%Z) raw_default) [] [2%nat; 3%nat] ].
+Example C06_forward_example :
+  forward C06_fw /\
+  (forall i c, nth_opt C06_fw i = Some c -> reads_from_memory (cn c) = None) /\
+  match avail_pass (mkcfg C06_fw [] []) with
+  | Ok g =>
+      match nth_opt (gnodes g) 3, nth_opt (gnodes g) 4 with
+      | Some c3, Some c4 =>
+          rm_get 6%N (rout c3) = Some (AConst 6) /\
+          rm_get 5%N (rin c4) = Some (AConst 5) /\ rm_get 6%N (rin c4) = None /\
+          rm_get 7%N (rout c4) = Some (AConst 7) /\ min c4 = []
+      | _, _ => False
+      end
+  | _ => False
+  end /\
+  avail_loop 1 C06_fw [] = OutOfFuel /\ (exists g', avail_loop 2 C06_fw [] = Ok g').
+Proof.
+  split; [|split].
+  - intros i c E p Hp.
+    do 5 (destruct i as [|i]; [cbn in E; inversion E; subst c; cbn in Hp; intuition lia|]).
+    cbn in E. discriminate.
+  - intros i c E.
+    do 5 (destruct i as [|i]; [cbn in E; inversion E; subst c; reflexivity|]).
+    cbn in E. discriminate.
+  - vm_compute. repeat split; try reflexivity. eexists; reflexivity.
+Qed.
+
+(* the bound of C06_forward_sweeps is exact: `fwd_chain` (Proofs/ForwardProofs.v) is the straight-line program
+   ProgramEntry; `li a0, 5`; `csrr t0, mscratch`; `sw a0, 0(t0)`; `lw t1, 0(t0)`; `sw t1, 4(t0)`; `lw t2, 4(t0)`
+   with empty facts: two loads, four sweeps needed; its first five nodes: one load, three sweeps needed. *)
+Example C06_forward_bound_exact :
+  forward fwd_chain /\ count_pulls fwd_chain = 2%nat /\
+  avail_loop 3 fwd_chain [] = OutOfFuel /\
+  match avail_loop 4 fwd_chain [] with
+  | Ok g => match nth_opt g 6 with Some c => rm_get 7%N (rout c) = Some (AConst 5) | None => False end
+  | _ => False
+  end /\
+  forward fwd_chain5 /\ count_pulls fwd_chain5 = 1%nat /\
+  avail_loop 2 fwd_chain5 [] = OutOfFuel /\ (exists g', avail_loop 3 fwd_chain5 [] = Ok g').
+Proof.
+  split; [exact fwd_chain_forward|]. split; [reflexivity|]. split; [vm_compute; reflexivity|].
+  split; [vm_compute; reflexivity|]. split; [exact (forward_firstn 5 fwd_chain fwd_chain_forward)|].
+  split; [reflexivity|]. split; [vm_compute; reflexivity|]. vm_compute. eexists; reflexivity.
+Qed.
+
+(* ---------------------------------------------------------------------------------------------------
+   The liveness loop on the analogous class (Spec/ForwardSpec.v): `dag` - successors have larger and
+   predecessors smaller indices - and no call sites (a call site reads the live_out of the entry and writes
+   the live_in of the exit of its function through `gfuncs`, which is not an edge; the known hang
+   F-C06-live-hang needs them).  Two sweeps are NOT enough here either: `live_node` computes u_def, a FORWARD
+   analysis over the visited predecessors, inside a sweep that runs from the last node to the first, so
+   u_def advances one node per sweep along straight-line code.  What holds (Proofs/ForwardLiveProofs.v):
+   length + 2 sweeps suffice, hence `liveness_pass` (fuel 70 * length + 64) returns on the class and its
+   result satisfies the liveness equations. *)
+Definition C06_dag_live_two_sweeps_false_statement : Prop :=
+  ~ (forall fuel g ns, dag ns -> no_call_sites g ns -> exists ns', live_loop (S (S fuel)) g ns [] = Ok ns').
+Theorem C06_dag_live_two_sweeps_false : C06_dag_live_two_sweeps_false_statement.
+Proof. exact dag_live_two_sweeps_false. Qed.
+Check C06_dag_live_two_sweeps_false : C06_dag_live_two_sweeps_false_statement.
+Print Assumptions C06_dag_live_two_sweeps_false.
+
+Definition C06_dag_live_statement : Prop :=
+  forall fuel g ns, dag ns -> no_call_sites g ns ->
+    exists ns', live_loop (S (S (length ns)) + fuel) g ns [] = Ok ns'.
+Theorem C06_dag_live_sweeps : C06_dag_live_statement.
+Proof. exact dag_live_sweeps. Qed.
+Check C06_dag_live_sweeps : C06_dag_live_statement.
+Print Assumptions C06_dag_live_sweeps.
+
+Definition C06_dag_liveness_pass_statement : Prop :=
+  forall g, dag (gnodes g) -> no_call_sites g (gnodes g) -> exists g', liveness_pass g = Ok g' /\ LiveFix g'.
+Theorem C06_dag_liveness_pass_returns : C06_dag_liveness_pass_statement.
+Proof. exact dag_liveness_pass. Qed.
+Check C06_dag_liveness_pass_returns : C06_dag_liveness_pass_statement.
+Print Assumptions C06_dag_liveness_pass_returns.
+
+(* non-vacuity: C06_fw (branch and join, see above; its branch goes to a label that is no function) is in the
+   class; liveness returns on it; t0 is live into node 3 (`addi t1, t0, 1`) and into the branch, not into
+   node 1 (`li t0, 5`) which defines it.  The straight-line program of three nodes `fwd_line3` needs three
+   sweeps. *)
+Example C06_dag_live_example :
+  dag C06_fw /\ no_call_sites (mkcfg C06_fw [] []) C06_fw /\
+  match liveness_pass (mkcfg C06_fw [] []) with
+  | Ok g =>
+      match nth_opt (gnodes g) 1, nth_opt (gnodes g) 2, nth_opt (gnodes g) 3 with
+      | Some c1, Some c2, Some c3 =>
+          N.testbit (lin c3) 5 = true /\ N.testbit (lin c2) 5 = true /\ N.testbit (lin c1) 5 = false /\
+          N.testbit (lout c1) 5 = true /\ N.testbit (udef c3) 5 = true
+      | _, _, _ => False
+      end
+  | _ => False
+  end /\
+  live_loop 2 fwd_line3 (gnodes fwd_line3) [] = OutOfFuel /\
+  (exists ns', live_loop 3 fwd_line3 (gnodes fwd_line3) [] = Ok ns').
+Proof.
+  split; [|split].
+  - intros i c E.
+    do 5 (destruct i as [|i]; [cbn in E; inversion E; subst c; cbn; split; intros x Hx; intuition lia|]).
+    cbn in E. discriminate.
+  - intros i c E.
+    do 5 (destruct i as [|i]; [cbn in E; inversion E; subst c; reflexivity|]).
+    cbn in E. discriminate.
+  - vm_compute. repeat split; try reflexivity. eexists; reflexivity.
+Qed.
